@@ -145,7 +145,9 @@ pub fn record(args: &[String]) -> i32 {
     let conn = gen::matrix_rows("/repo/sudachi/tests/resources/matrix_10x10.def");
     let lex = json!([gen::csv_params("/repo/sudachi/tests/resources/lex.csv"), gen::csv_params("/repo/sudachi/tests/resources/user1.csv"), gen::csv_params("/repo/sudachi/tests/resources/user2.csv")]);
     for w in tok::fixture_worlds() {
-        tr.emit(json!({"ev": "world", "run": run + 1, "name": w.name, "conn": conn, "lex": lex}));
+        let mut wl = lex.as_array().unwrap().clone();
+        wl.extend(w.meta["extra_lex"].as_array().unwrap().iter().cloned());
+        tr.emit(json!({"ev": "world", "run": run + 1, "name": w.name, "conn": conn, "lex": wl}));
         let mut t = StatefulTokenizer::new(w.dict.clone(), Mode::C);
         for (k, s) in crate::texts::FIXTURE_SENTENCES.iter().enumerate() {
             run += 1;
